@@ -114,7 +114,10 @@ func (e *ExtensionObject) Encode() ([]byte, error) {
 	}
 
 	body := NewBuffer(nil)
-	body.WriteStruct(e.Value)
+	// Value is nil when the body was empty or of a type unknown to the registry.
+	if e.Value != nil {
+		body.WriteStruct(e.Value)
+	}
 	if body.Error() != nil {
 		return nil, body.Error()
 	}
